@@ -1070,6 +1070,314 @@ pub(crate) mod verif_js_op {
     //@ desc="abstract_plus(bool, bool): returns a finite number"
     plus_harness!(k_c01_abstract_plus_bool_bool, 1, 1);
 
+    // =====================================================================================
+    // str_to_number (C07 / C09 / C10): JavaScript StringToNumber, with `f64::from_str` by contract.
+    // Assumed contract on std (stub): from_str(s) is Ok exactly on Rust's float grammar
+    //   [+-]? ( "inf" | "infinity" | "nan" (any case) | digits [. digits*] [exp] | . digits [exp] ),  exp = [eE][+-]?digits
+    // and then returns the correctly rounded value - represented here by a planned (arbitrary, non-NaN for
+    // numeric spellings) double, because the decimal->binary rounding itself is trusted, not verified.
+    // =====================================================================================
+    fn is_digit(b: u8) -> bool {
+        b >= b'0' && b <= b'9'
+    }
+    fn lower(b: u8) -> u8 {
+        if b >= b'A' && b <= b'Z' { b + 32 } else { b }
+    }
+    fn eq_ci(s: &[u8], w: &[u8]) -> bool {
+        if s.len() != w.len() {
+            return false;
+        }
+        let mut i = 0;
+        while i < w.len() {
+            if lower(s[i]) != w[i] {
+                return false;
+            }
+            i += 1;
+        }
+        true
+    }
+    /// digits [. digits*] [exp] | . digits [exp]   (shared by the Rust and the JS decimal grammars)
+    fn is_unsigned_decimal(s: &[u8]) -> bool {
+        let n = s.len();
+        let mut i = 0;
+        let mut int_digits = 0;
+        while i < n && is_digit(s[i]) {
+            i += 1;
+            int_digits += 1;
+        }
+        let mut frac_digits = 0;
+        if i < n && s[i] == b'.' {
+            i += 1;
+            while i < n && is_digit(s[i]) {
+                i += 1;
+                frac_digits += 1;
+            }
+        }
+        if int_digits + frac_digits == 0 {
+            return false;
+        }
+        if i < n && (s[i] == b'e' || s[i] == b'E') {
+            i += 1;
+            if i < n && (s[i] == b'+' || s[i] == b'-') {
+                i += 1;
+            }
+            let mut exp_digits = 0;
+            while i < n && is_digit(s[i]) {
+                i += 1;
+                exp_digits += 1;
+            }
+            if exp_digits == 0 {
+                return false;
+            }
+        }
+        i == n
+    }
+    fn strip_sign(s: &[u8]) -> &[u8] {
+        if s.len() > 0 && (s[0] == b'+' || s[0] == b'-') { &s[1..] } else { s }
+    }
+    /// 0 = rejected, 1 = numeric, 2 = +inf, 3 = -inf, 4 = nan
+    fn rust_float_grammar(s: &[u8]) -> u8 {
+        let neg = s.len() > 0 && s[0] == b'-';
+        let u = strip_sign(s);
+        if eq_ci(u, b"inf") || eq_ci(u, b"infinity") {
+            return if neg { 3 } else { 2 };
+        }
+        if eq_ci(u, b"nan") {
+            return 4;
+        }
+        if is_unsigned_decimal(u) { 1 } else { 0 }
+    }
+    pub(crate) static mut FS_PLAN: f64 = 0.0;
+    pub(crate) static mut FS_CALLS: u32 = 0;
+    pub(crate) static mut FS_ARG: [u8; 8] = [0; 8];
+    pub(crate) static mut FS_ARG_LEN: usize = 0;
+    /// contract stub for `<f64 as FromStr>::from_str`
+    pub(crate) fn from_str_stub(s: &str) -> Result<f64, std::num::ParseFloatError> {
+        let b = s.as_bytes();
+        unsafe {
+            FS_CALLS += 1;
+            FS_ARG_LEN = b.len();
+            let mut i = 0;
+            while i < b.len() && i < 8 {
+                FS_ARG[i] = b[i];
+                i += 1;
+            }
+        }
+        match rust_float_grammar(b) {
+            0 => Err("x".parse::<f32>().unwrap_err()),
+            1 => Ok(unsafe { FS_PLAN }),
+            2 => Ok(f64::INFINITY),
+            3 => Ok(f64::NEG_INFINITY),
+            _ => Ok(f64::NAN),
+        }
+    }
+    fn is_js_space(b: u8) -> bool {
+        // the ASCII part of StrWhiteSpaceChar: TAB, LF, VT, FF, CR, SP
+        b == 9 || b == 10 || b == 11 || b == 12 || b == 13 || b == 32
+    }
+    fn radix_digit(b: u8, radix: u32) -> Option<u32> {
+        let v = if is_digit(b) {
+            (b - b'0') as u32
+        } else if lower(b) >= b'a' && lower(b) <= b'f' {
+            (lower(b) - b'a') as u32 + 10
+        } else {
+            return None;
+        };
+        if v < radix { Some(v) } else { None }
+    }
+    /// ECMA-262 StringToNumber on an ASCII string: Err(()) = NaN; Ok(None) = decimal literal whose value is
+    /// from_str of the trimmed literal; Ok(Some(v)) = a value fixed by the grammar itself ("" => 0, Infinity, radix)
+    fn js_string_to_number(s: &[u8]) -> Result<Option<f64>, ()> {
+        let mut lo = 0;
+        let mut hi = s.len();
+        while lo < hi && is_js_space(s[lo]) {
+            lo += 1;
+        }
+        while hi > lo && is_js_space(s[hi - 1]) {
+            hi -= 1;
+        }
+        let t = &s[lo..hi];
+        if t.len() == 0 {
+            return Ok(Some(0.0));
+        }
+        if t.len() >= 2 && t[0] == b'0' && (lower(t[1]) == b'x' || lower(t[1]) == b'o' || lower(t[1]) == b'b') {
+            let radix = match lower(t[1]) {
+                b'x' => 16,
+                b'o' => 8,
+                _ => 2,
+            };
+            if t.len() == 2 {
+                return Err(());
+            }
+            let mut v: f64 = 0.0;
+            let mut i = 2;
+            while i < t.len() {
+                match radix_digit(t[i], radix) {
+                    Some(d) => v = v * (radix as f64) + d as f64,
+                    None => return Err(()),
+                }
+                i += 1;
+            }
+            return Ok(Some(v));
+        }
+        let neg = t[0] == b'-';
+        let u = strip_sign(t);
+        if u.len() == 8 && u[0] == b'I' && u[1] == b'n' && u[2] == b'f' && u[3] == b'i' && u[4] == b'n' && u[5] == b'i' && u[6] == b't' && u[7] == b'y' {
+            return Ok(Some(if neg { f64::NEG_INFINITY } else { f64::INFINITY }));
+        }
+        if is_unsigned_decimal(u) { Ok(None) } else { Err(()) }
+    }
+    pub(crate) fn body_str_to_number<const N: usize>(alphabet: &[u8]) {
+        let mut s = String::with_capacity(N + 1);
+        let mut j = 0;
+        while j < N {
+            s.push('a');
+            j += 1;
+        }
+        let mut bytes = [0u8; N];
+        let mut i = 0;
+        while i < N {
+            let sel: usize = kani::any();
+            kani::assume(sel < alphabet.len());
+            bytes[i] = alphabet[sel];
+            unsafe { s.as_bytes_mut()[i] = bytes[i] };
+            i += 1;
+        }
+        let plan: f64 = kani::any();
+        kani::assume(!plan.is_nan());
+        unsafe { FS_PLAN = plan };
+        let s = MD::new(s);
+        #[cfg(verif_replay)]
+        eprintln!("REPLAY-INPUT: str_to_number({:?})", s.as_str());
+        let r = str_to_number(s.as_str());
+        kani::cover!(true, "returned");
+        #[cfg(kani)]
+        match js_string_to_number(&bytes) {
+            Err(()) => assert!(r.is_none() || r.unwrap().is_nan(), "str_to_number accepts a string JavaScript's StringToNumber rejects (NaN)"),
+            Ok(Some(v)) => assert!(r == Some(v), "str_to_number differs from StringToNumber on \"\" / whitespace / Infinity / 0x 0o 0b literal"),
+            Ok(None) => {
+                assert!(r == Some(plan), "str_to_number rejects (or does not convert with from_str) a decimal literal StringToNumber accepts");
+            }
+        }
+        // replay (real from_str, no plan): compare with Rust's own parser on the JS-normalised literal
+        #[cfg(verif_replay)]
+        match js_string_to_number(&bytes) {
+            Err(()) => assert!(r.is_none() || r.unwrap().is_nan(), "str_to_number accepts a string JavaScript's StringToNumber rejects (NaN)"),
+            Ok(Some(v)) => assert!(r == Some(v), "str_to_number differs from StringToNumber on \"\" / whitespace / Infinity / 0x 0o 0b literal"),
+            Ok(None) => {
+                let t = s.as_str().trim_matches(|c: char| (c as u32) < 128 && is_js_space(c as u8));
+                assert!(r == t.parse::<f64>().ok() && r.is_some(), "str_to_number rejects a decimal literal StringToNumber accepts");
+            }
+        }
+    }
+    const ALPHA_NUM: [u8; 12] = [b'0', b'1', b'9', b'.', b'-', b'+', b'e', b'E', b' ', b'\t', b'x', b'a'];
+    const ALPHA_WORD: [u8; 12] = [b'i', b'n', b'f', b'I', b'N', b'a', b't', b'y', b'1', b'-', b' ', b'A'];
+    const ALPHA_RADIX: [u8; 10] = [b'0', b'x', b'X', b'b', b'o', b'1', b'7', b'f', b'-', b'g'];
+    macro_rules! s2n_harness {
+        ($name:ident, $n:expr, $alpha:expr) => {
+            #[cfg_attr(kani, kani::proof)]
+            #[cfg_attr(kani, kani::unwind(12))]
+            #[cfg_attr(kani, kani::stub(<f64 as std::str::FromStr>::from_str, from_str_stub))]
+            pub(crate) fn $name() {
+                body_str_to_number::<$n>(&$alpha);
+            }
+        };
+    }
+    /// a symbolic choice among concrete candidate spellings (for the 8/9-character `Infinity` family)
+    pub(crate) fn body_str_to_number_words() {
+        const WORDS: [&[u8; 9]; 8] = [b"Infinity ", b"-Infinity", b"+Infinity", b"infinity ", b"INFINITY ", b" Infinity", b"Infinit1 ", b"-infinity"];
+        let sel: usize = kani::any();
+        kani::assume(sel < 8);
+        let mut s = String::with_capacity(10);
+        let mut j = 0;
+        while j < 9 {
+            s.push('a');
+            j += 1;
+        }
+        let mut bytes = [0u8; 9];
+        let mut i = 0;
+        while i < 9 {
+            bytes[i] = WORDS[sel][i];
+            unsafe { s.as_bytes_mut()[i] = bytes[i] };
+            i += 1;
+        }
+        unsafe { FS_PLAN = 1.0 };
+        let s = MD::new(s);
+        #[cfg(verif_replay)]
+        eprintln!("REPLAY-INPUT: str_to_number({:?})", s.as_str());
+        let r = str_to_number(s.as_str());
+        kani::cover!(true, "returned");
+        match js_string_to_number(&bytes) {
+            Err(()) => assert!(r.is_none() || r.unwrap().is_nan(), "str_to_number accepts a spelling of infinity other than `Infinity`"),
+            Ok(Some(v)) => assert!(r == Some(v), "str_to_number rejects `Infinity` / `-Infinity` / `+Infinity` (or gives the wrong sign)"),
+            Ok(None) => assert!(false, "spec: these candidates are never decimal literals"),
+        }
+    }
+    //@ob name=C07.str_to_number.infinity props=C07,C09,C10,C01 strength=bounded bound="the spellings Infinity, -Infinity, +Infinity, infinity, INFINITY, -infinity, Infinit1 with trailing/leading space" fns=js_op::str_to_number stubs=1 replay=generic timeout=400
+    //@ desc="only `Infinity` (optionally signed, surrounded by whitespace) names infinity; case variants and near-misses are not numbers"
+    #[cfg_attr(kani, kani::proof)]
+    #[cfg_attr(kani, kani::unwind(12))]
+    #[cfg_attr(kani, kani::stub(<f64 as std::str::FromStr>::from_str, from_str_stub))]
+    pub(crate) fn k_c07_s2n_infinity() {
+        body_str_to_number_words();
+    }
+//@GENERATED-S2N
+    //@ob name=C07.str_to_number.num.0 harness=k_c07_s2n_num_0 props=C07,C09,C10,C01 tier=quick strength=bounded bound="every string of exactly 0 characters over the alphabet {0 1 9 . - + e E space tab x a}" fns=js_op::str_to_number stubs=1 replay=generic timeout=300
+    //@ desc="str_to_number(s) == ECMAScript StringToNumber(s): surrounding whitespace ignored, \"\" is 0, only `Infinity` spelled that way, 0x/0o/0b literals honoured (unsigned), decimal literals by from_str (assumed contract), anything else non-numeric"
+    s2n_harness!(k_c07_s2n_num_0, 0, ALPHA_NUM);
+    //@ob name=C07.str_to_number.num.1 harness=k_c07_s2n_num_1 props=C07,C09,C10,C01 tier=quick strength=bounded bound="every string of exactly 1 characters over the alphabet {0 1 9 . - + e E space tab x a}" fns=js_op::str_to_number stubs=1 replay=generic timeout=300
+    //@ desc="str_to_number(s) == ECMAScript StringToNumber(s): surrounding whitespace ignored, \"\" is 0, only `Infinity` spelled that way, 0x/0o/0b literals honoured (unsigned), decimal literals by from_str (assumed contract), anything else non-numeric"
+    s2n_harness!(k_c07_s2n_num_1, 1, ALPHA_NUM);
+    //@ob name=C07.str_to_number.num.2 harness=k_c07_s2n_num_2 props=C07,C09,C10,C01 tier=quick strength=bounded bound="every string of exactly 2 characters over the alphabet {0 1 9 . - + e E space tab x a}" fns=js_op::str_to_number stubs=1 replay=generic timeout=300
+    //@ desc="str_to_number(s) == ECMAScript StringToNumber(s): surrounding whitespace ignored, \"\" is 0, only `Infinity` spelled that way, 0x/0o/0b literals honoured (unsigned), decimal literals by from_str (assumed contract), anything else non-numeric"
+    s2n_harness!(k_c07_s2n_num_2, 2, ALPHA_NUM);
+    //@ob name=C07.str_to_number.num.3 harness=k_c07_s2n_num_3 props=C07,C09,C10,C01 tier=thorough strength=bounded bound="every string of exactly 3 characters over the alphabet {0 1 9 . - + e E space tab x a}" fns=js_op::str_to_number stubs=1 replay=generic timeout=300
+    //@ desc="str_to_number(s) == ECMAScript StringToNumber(s): surrounding whitespace ignored, \"\" is 0, only `Infinity` spelled that way, 0x/0o/0b literals honoured (unsigned), decimal literals by from_str (assumed contract), anything else non-numeric"
+    s2n_harness!(k_c07_s2n_num_3, 3, ALPHA_NUM);
+    //@ob name=C07.str_to_number.num.4 harness=k_c07_s2n_num_4 props=C07,C09,C10,C01 tier=thorough strength=bounded bound="every string of exactly 4 characters over the alphabet {0 1 9 . - + e E space tab x a}" fns=js_op::str_to_number stubs=1 replay=generic timeout=300
+    //@ desc="str_to_number(s) == ECMAScript StringToNumber(s): surrounding whitespace ignored, \"\" is 0, only `Infinity` spelled that way, 0x/0o/0b literals honoured (unsigned), decimal literals by from_str (assumed contract), anything else non-numeric"
+    s2n_harness!(k_c07_s2n_num_4, 4, ALPHA_NUM);
+    //@ob name=C07.str_to_number.num.5 harness=k_c07_s2n_num_5 props=C07,C09,C10,C01 tier=thorough strength=bounded bound="every string of exactly 5 characters over the alphabet {0 1 9 . - + e E space tab x a}" fns=js_op::str_to_number stubs=1 replay=generic timeout=300
+    //@ desc="str_to_number(s) == ECMAScript StringToNumber(s): surrounding whitespace ignored, \"\" is 0, only `Infinity` spelled that way, 0x/0o/0b literals honoured (unsigned), decimal literals by from_str (assumed contract), anything else non-numeric"
+    s2n_harness!(k_c07_s2n_num_5, 5, ALPHA_NUM);
+    //@ob name=C07.str_to_number.word.0 harness=k_c07_s2n_word_0 props=C07,C09,C10,C01 tier=quick strength=bounded bound="every string of exactly 0 characters over the alphabet {i n f I N a t y 1 - space A}" fns=js_op::str_to_number stubs=1 replay=generic timeout=300
+    //@ desc="str_to_number(s) == ECMAScript StringToNumber(s): surrounding whitespace ignored, \"\" is 0, only `Infinity` spelled that way, 0x/0o/0b literals honoured (unsigned), decimal literals by from_str (assumed contract), anything else non-numeric"
+    s2n_harness!(k_c07_s2n_word_0, 0, ALPHA_WORD);
+    //@ob name=C07.str_to_number.word.1 harness=k_c07_s2n_word_1 props=C07,C09,C10,C01 tier=quick strength=bounded bound="every string of exactly 1 characters over the alphabet {i n f I N a t y 1 - space A}" fns=js_op::str_to_number stubs=1 replay=generic timeout=300
+    //@ desc="str_to_number(s) == ECMAScript StringToNumber(s): surrounding whitespace ignored, \"\" is 0, only `Infinity` spelled that way, 0x/0o/0b literals honoured (unsigned), decimal literals by from_str (assumed contract), anything else non-numeric"
+    s2n_harness!(k_c07_s2n_word_1, 1, ALPHA_WORD);
+    //@ob name=C07.str_to_number.word.2 harness=k_c07_s2n_word_2 props=C07,C09,C10,C01 tier=quick strength=bounded bound="every string of exactly 2 characters over the alphabet {i n f I N a t y 1 - space A}" fns=js_op::str_to_number stubs=1 replay=generic timeout=300
+    //@ desc="str_to_number(s) == ECMAScript StringToNumber(s): surrounding whitespace ignored, \"\" is 0, only `Infinity` spelled that way, 0x/0o/0b literals honoured (unsigned), decimal literals by from_str (assumed contract), anything else non-numeric"
+    s2n_harness!(k_c07_s2n_word_2, 2, ALPHA_WORD);
+    //@ob name=C07.str_to_number.word.3 harness=k_c07_s2n_word_3 props=C07,C09,C10,C01 tier=thorough strength=bounded bound="every string of exactly 3 characters over the alphabet {i n f I N a t y 1 - space A}" fns=js_op::str_to_number stubs=1 replay=generic timeout=300
+    //@ desc="str_to_number(s) == ECMAScript StringToNumber(s): surrounding whitespace ignored, \"\" is 0, only `Infinity` spelled that way, 0x/0o/0b literals honoured (unsigned), decimal literals by from_str (assumed contract), anything else non-numeric"
+    s2n_harness!(k_c07_s2n_word_3, 3, ALPHA_WORD);
+    //@ob name=C07.str_to_number.word.4 harness=k_c07_s2n_word_4 props=C07,C09,C10,C01 tier=thorough strength=bounded bound="every string of exactly 4 characters over the alphabet {i n f I N a t y 1 - space A}" fns=js_op::str_to_number stubs=1 replay=generic timeout=300
+    //@ desc="str_to_number(s) == ECMAScript StringToNumber(s): surrounding whitespace ignored, \"\" is 0, only `Infinity` spelled that way, 0x/0o/0b literals honoured (unsigned), decimal literals by from_str (assumed contract), anything else non-numeric"
+    s2n_harness!(k_c07_s2n_word_4, 4, ALPHA_WORD);
+    //@ob name=C07.str_to_number.word.5 harness=k_c07_s2n_word_5 props=C07,C09,C10,C01 tier=thorough strength=bounded bound="every string of exactly 5 characters over the alphabet {i n f I N a t y 1 - space A}" fns=js_op::str_to_number stubs=1 replay=generic timeout=300
+    //@ desc="str_to_number(s) == ECMAScript StringToNumber(s): surrounding whitespace ignored, \"\" is 0, only `Infinity` spelled that way, 0x/0o/0b literals honoured (unsigned), decimal literals by from_str (assumed contract), anything else non-numeric"
+    s2n_harness!(k_c07_s2n_word_5, 5, ALPHA_WORD);
+    //@ob name=C07.str_to_number.radix.0 harness=k_c07_s2n_radix_0 props=C07,C09,C10,C01 tier=quick strength=bounded bound="every string of exactly 0 characters over the alphabet {0 x X b o 1 7 f - g}" fns=js_op::str_to_number stubs=1 replay=generic timeout=300
+    //@ desc="str_to_number(s) == ECMAScript StringToNumber(s): surrounding whitespace ignored, \"\" is 0, only `Infinity` spelled that way, 0x/0o/0b literals honoured (unsigned), decimal literals by from_str (assumed contract), anything else non-numeric"
+    s2n_harness!(k_c07_s2n_radix_0, 0, ALPHA_RADIX);
+    //@ob name=C07.str_to_number.radix.1 harness=k_c07_s2n_radix_1 props=C07,C09,C10,C01 tier=quick strength=bounded bound="every string of exactly 1 characters over the alphabet {0 x X b o 1 7 f - g}" fns=js_op::str_to_number stubs=1 replay=generic timeout=300
+    //@ desc="str_to_number(s) == ECMAScript StringToNumber(s): surrounding whitespace ignored, \"\" is 0, only `Infinity` spelled that way, 0x/0o/0b literals honoured (unsigned), decimal literals by from_str (assumed contract), anything else non-numeric"
+    s2n_harness!(k_c07_s2n_radix_1, 1, ALPHA_RADIX);
+    //@ob name=C07.str_to_number.radix.2 harness=k_c07_s2n_radix_2 props=C07,C09,C10,C01 tier=quick strength=bounded bound="every string of exactly 2 characters over the alphabet {0 x X b o 1 7 f - g}" fns=js_op::str_to_number stubs=1 replay=generic timeout=300
+    //@ desc="str_to_number(s) == ECMAScript StringToNumber(s): surrounding whitespace ignored, \"\" is 0, only `Infinity` spelled that way, 0x/0o/0b literals honoured (unsigned), decimal literals by from_str (assumed contract), anything else non-numeric"
+    s2n_harness!(k_c07_s2n_radix_2, 2, ALPHA_RADIX);
+    //@ob name=C07.str_to_number.radix.3 harness=k_c07_s2n_radix_3 props=C07,C09,C10,C01 tier=thorough strength=bounded bound="every string of exactly 3 characters over the alphabet {0 x X b o 1 7 f - g}" fns=js_op::str_to_number stubs=1 replay=generic timeout=300
+    //@ desc="str_to_number(s) == ECMAScript StringToNumber(s): surrounding whitespace ignored, \"\" is 0, only `Infinity` spelled that way, 0x/0o/0b literals honoured (unsigned), decimal literals by from_str (assumed contract), anything else non-numeric"
+    s2n_harness!(k_c07_s2n_radix_3, 3, ALPHA_RADIX);
+    //@ob name=C07.str_to_number.radix.4 harness=k_c07_s2n_radix_4 props=C07,C09,C10,C01 tier=thorough strength=bounded bound="every string of exactly 4 characters over the alphabet {0 x X b o 1 7 f - g}" fns=js_op::str_to_number stubs=1 replay=generic timeout=300
+    //@ desc="str_to_number(s) == ECMAScript StringToNumber(s): surrounding whitespace ignored, \"\" is 0, only `Infinity` spelled that way, 0x/0o/0b literals honoured (unsigned), decimal literals by from_str (assumed contract), anything else non-numeric"
+    s2n_harness!(k_c07_s2n_radix_4, 4, ALPHA_RADIX);
+    //@ob name=C07.str_to_number.radix.5 harness=k_c07_s2n_radix_5 props=C07,C09,C10,C01 tier=thorough strength=bounded bound="every string of exactly 5 characters over the alphabet {0 x X b o 1 7 f - g}" fns=js_op::str_to_number stubs=1 replay=generic timeout=300
+    //@ desc="str_to_number(s) == ECMAScript StringToNumber(s): surrounding whitespace ignored, \"\" is 0, only `Infinity` spelled that way, 0x/0o/0b literals honoured (unsigned), decimal literals by from_str (assumed contract), anything else non-numeric"
+    s2n_harness!(k_c07_s2n_radix_5, 5, ALPHA_RADIX);
+//@END-GENERATED-S2N
+
     macro_rules! pair_harness {
         ($name:ident, $body:ident, $ka:expr, $kb:expr) => {
             #[cfg_attr(kani, kani::proof)]
